@@ -17,7 +17,7 @@ MANIFEST = dict(
         "potrf_correct (returns 0 => L L^T = A on the stored triangle, other triangle untouched), potrf_upper_correct, potrf_info_spec "
         "(returns k+1 => first k pivots positive, Schur pivot k <= 0); getrf_correct (no exception => P A = L U for the recorded "
         "transposition sequence); solve_eq_of_factorisation and its instance solve_spd_correct (solve(A,b,symm_pos_def) returns x with "
-        "A x = b), solve_spd_unique; inv_prod_is_solve / inv_prod_is_solve_spd (explicit inverse times b = the solve call). The square "
+        "A x = b), solve_spd_unique, solve_lu_correct (solve(A,b,indefinite_full_rank,left) returns x with A x = b); inv_prod_is_solve / inv_prod_is_solve_spd (explicit inverse times b = the solve call). The square "
         "root is a parameter r required to be exact on the pivots that occur (SqrtSpec). The model is tied to remora's default kernels "
         "by an exact correspondence (driver drv_c02 in Rat vs C++ doubles printed exactly) on systems built from integer factors with "
         "power-of-two diagonals, sizes 1..70 across the block sizes 4/16/20/32/64, both orientations, left/right, vector/matrix "
@@ -27,8 +27,8 @@ MANIFEST = dict(
   note=TRUST + "PARTIAL. Proved only on the model: everything listed in `text`. potrf_strict_correct_partial needs 'no pivot is exactly zero' "
        "(the unrepaired (row_major,upper) kernel accepts a zero pivot: finding C02-potrf-zero-pivot-accepted). NOT theorems, exercised by the "
        "correspondence / residual oracle only: pivoted Cholesky pstrf and the semi-definite solver incl. the least-squares clause (modelled and "
-       "compared exactly, nothing proved), LU-based solve (getrf and the triangular solves are proved, their composition with the permutation "
-       "is not), rank-one Cholesky update, conjugate gradient, symmetric eigendecomposition (oracle only, no model), the blocked recursions "
+       "compared exactly, nothing proved), the right-hand-side / matrix-rhs forms of the LU- and Cholesky-based solves (left vector forms are proved), "
+       "rank-one Cholesky update, conjugate gradient, symmetric eigendecomposition (oracle only, no model), the blocked recursions "
        "(modelled as the unblocked loops; equality in exact arithmetic follows from trsv_unique for trsm and is otherwise established by the "
        "exact correspondence across the block boundaries), floating-point backward-error bounds ('residual at rounding level' is measured, not proved). "
        "The model describes the tree with findings_proposed/C02.patch applied (pstrf stops at pivot <= epsilon; both potrf kernels reject pivot <= 0; "
